@@ -597,6 +597,10 @@ class _OutsideContract(Exception):
     pass
 
 
+class _BoundsSize(Exception):
+    pass
+
+
 def job_damage_step(cfg):
     """'For the damage-based solvers the damage at each node never decreases between saved steps' as ONE INDUCTIVE STEP of the real
     Simulations.PhaseField.Solve(): the damage stored at the previous save is an arbitrary symbolic field in [0, 9/10]^n, every linear solve inside
@@ -639,8 +643,8 @@ def job_damage_step(cfg):
                 x = list(outs[calls["d"]])
                 calls["d"] += 1
                 if bounded:
-                    if len(lb) != len(x):
-                        raise RuntimeError("bounds of another size than the system")
+                    if len(lb) != len(x) or len(ub) != len(x) or np.shape(A)[0] != len(x):
+                        raise _BoundsSize(f"system of size {np.shape(A)[0]}, lower bounds of size {len(lb)}, upper bounds of size {len(ub)}")
                     for i in range(len(x)):
                         if x[i] < lb[i] or x[i] > ub[i]:
                             raise _OutsideContract()
@@ -657,7 +661,8 @@ def job_damage_step(cfg):
             s._Set_solutions(s.ProblemTypes.damage, np.array(d_old, dtype=object if symbolic else float))
             s.Save_Iter()
             if nfree < n:
-                s.add_dirichlet(np.arange(nfree, n), [0.0], ["d"], s.ProblemTypes.damage)
+                # prescribed damage on the remaining nodes: 0 for the unbounded solver (those nodes carry no obligation), 1 (fully broken, >= any old damage) for the bounded one
+                s.add_dirichlet(np.arange(nfree, n), [1.0 if bounded else 0.0], ["d"], s.ProblemTypes.damage)
             u, d, conv = s.Solve(tolConv, maxIter, 0)
             live = s.damage
             s.Save_Iter()
@@ -666,6 +671,8 @@ def job_damage_step(cfg):
             return {"returned": np.asarray(d).copy(), "live": np.asarray(live).copy(), "stored": np.asarray(stored).copy(), "first": np.asarray(first).copy(), "solves": dict(calls)}
         except _OutsideContract:
             return None
+        except _BoundsSize as e:
+            return {"error": str(e)}
         finally:
             S._Solve_Axb = orig
 
@@ -691,11 +698,18 @@ def job_damage_step(cfg):
         out = run(dold, [[full[_vid(v)] for v in l] for l in xs], [full[_vid(v)] for v in amp], False)
         if out is None:
             return False, {"note": "outside the solver contract"}
+        if "error" in out:
+            return True, {"bounded_solver_called_with": out["error"]}
         worst = min(float((np.asarray(out[nm], dtype=float) - np.asarray(dold)).min()) for nm in ("returned", "live", "stored"))
         return worst < -1e-12, {"damage_at_previous_save": dold, "solver_outputs": [[full[_vid(v)] for v in l] for l in xs], "damage_returned": np.asarray(out["returned"], dtype=float).tolist(),
                                 "damage_live_after_Solve": np.asarray(out["live"], dtype=float).tolist(), "damage_stored_by_Save_Iter": np.asarray(out["stored"], dtype=float).tolist()}
 
     for r in inside:
+        if "error" in r.result:
+            # the bounded backend was handed bounds that do not have the size of the reduced system (prescribed damage dofs present): scipy's lsq_linear refuses them
+            res.record(f"{key} region {r.index}: the bounds handed to the bounded solver have the size of the system it solves", Outcome("cex", env=dict(r.shadow), how="structure", detail=r.result["error"]), replay,
+                       key=f"damage step {solver}: bounds of the reduced system")
+            continue
         paths.reshadow(c, r.shadow)
         pcs = list(r.pcs) + list(c.side) + list(c.domain_conds())
         worst = None
@@ -720,7 +734,7 @@ def job_damage_step(cfg):
                    key=f"damage step {solver}: stored iteration untouched")
     # twin: 'the damage strictly increases' must be refuted somewhere
     tw = False
-    for r in inside[:8]:
+    for r in [r_ for r_ in inside if "error" not in r_.result][:8]:
         paths.reshadow(c, r.shadow)
         pcs = list(r.pcs) + list(c.side) + list(c.domain_conds())
         e = as_sym(r.result["stored"][0]) - d0[0] - Fraction(1, 100)
@@ -768,6 +782,7 @@ def main():
     configs.append({"kind": "damage_step", "solver": "HistoryDamage", "maxIter": 2, "tolConv": 1.0, "nfree": 3})
     configs.append({"kind": "damage_step", "solver": "HistoryDamage", "maxIter": 2, "tolConv": 2.0 ** -10, "nfree": 1})
     configs.append({"kind": "damage_step", "solver": "BoundConstrain", "maxIter": 2, "tolConv": 1.0, "nfree": 3})
+    configs.append({"kind": "damage_step", "solver": "BoundConstrain", "maxIter": 2, "tolConv": 1.0, "nfree": 2})  # one node with prescribed damage: the bounded solver works on a reduced system
     configs.append({"kind": "damage_step", "solver": "BoundConstrain", "maxIter": 2, "tolConv": 2.0 ** -10, "nfree": 3, "cover": False, "max_regions": 60 if tier == "quick" else 200})
     if tier == "thorough":
         configs.append({"kind": "damage_step", "solver": "HistoryDamage", "maxIter": 3, "tolConv": 2.0 ** -10, "nfree": 1})
